@@ -11,6 +11,12 @@
       order.  The identity [eid] stands for what the code compares when it writes
       [cls == item.__class__]: EnumType.__eq__ compares hash(cls), which is
       object.__hash__(cls.__name__), i.e. the identity of the class-name string.
+    - aliases (a further name bound to the value of an existing member) are not part of
+      an enumeration: Python keeps them out of _member_names_, of iteration and of
+      len(cls), so they are neither in [names] nor in [members]; E[alias] evaluates to the
+      member itself (an [EMem] with that member's index) and an alias NAME given to
+      Enum.encode is a string that is not in [names] (rejected like any unknown name).
+      The harness declares enumerations with aliases and renders them this way.
     - a member is (identity of its enumeration, its index): _enum_to_index only reads
       [member.index], the class check only reads [member.__class__].
     - arrays and sequences are lists; indices are [Z].  The uint8 cast of the index
